@@ -205,7 +205,8 @@ def replay_file(path):
         counts = {str(i): len(res["responses"].get(str(i), [])) for i in c24.IDS}
         for name, fn in (("cancel_during_init", lspdrive.session_cancel_during_init), ("cancel_in_flight", lspdrive.session_cancel_in_flight),
                          ("bad_initialize", lambda e: {k: v for k, v in lspdrive.session_bad_initialize(e).items() if k != "alive"}),
-                         ("after_shutdown", lspdrive.session_after_shutdown), ("before_initialized", lspdrive.session_before_initialized)):
+                         ("after_shutdown", lspdrive.session_after_shutdown), ("before_initialized", lspdrive.session_before_initialized),
+                         ("shutdown_while_loading", lspdrive.session_shutdown_while_loading)):
             for i, c in fn(exe).items():
                 counts["%s:%s" % (name, i)] = c
         bad = {i: c for i, c in counts.items() if c != 1 and not i.endswith("setup_failed")}
